@@ -45,13 +45,61 @@ func clangConfigs(thorough bool) []clangConfig {
 	return base
 }
 
+// directives returns the configurations a source file asks for itself in lines
+// of the form `// VERIF-CLANG[quick]: name :: args` (quick and thorough tier) or
+// `// VERIF-CLANG: name :: args` (thorough tier only). A file with directives is
+// compiled with those only; the shared configuration table is for files without.
+func directives(file string, thorough bool) (cfgs []clangConfig, has bool) {
+	b, err := os.ReadFile(file)
+	if err != nil {
+		return nil, false
+	}
+	for _, line := range strings.Split(string(b), "\n") {
+		i := strings.Index(line, "VERIF-CLANG")
+		if i < 0 {
+			continue
+		}
+		has = true
+		rest := line[i+len("VERIF-CLANG"):]
+		quick := strings.HasPrefix(rest, "[quick]")
+		rest = strings.TrimPrefix(rest, "[quick]")
+		rest = strings.TrimPrefix(rest, ":")
+		parts := strings.SplitN(rest, "::", 2)
+		if len(parts) != 2 {
+			continue
+		}
+		if !quick && !thorough {
+			continue
+		}
+		cfgs = append(cfgs, clangConfig{name: strings.TrimSpace(parts[0]), args: strings.Fields(parts[1])})
+	}
+	return cfgs, has
+}
+
 func init() {
 	ClangSources = func(thorough bool) []Source {
-		files, _ := filepath.Glob(filepath.Join(fw.Root, "corpus", "c", "*.c*"))
+		files, _ := filepath.Glob(filepath.Join(fw.Root, "corpus", "c", "*.*"))
 		sort.Strings(files)
 		var out []Source
+		add := func(f string, cfg clangConfig) {
+			out = append(out, Source{ID: fmt.Sprintf("clang/%s/%s", filepath.Base(f), cfg.name), Text: func() (string, error) {
+				return compileC(f, cfg)
+			}})
+		}
+		var shared []string
+		for _, f := range files {
+			cfgs, has := directives(f, thorough)
+			if !has {
+				shared = append(shared, f)
+				continue
+			}
+			for _, cfg := range cfgs {
+				cfg.cxx = strings.HasSuffix(f, ".cpp")
+				add(f, cfg)
+			}
+		}
 		for _, cfg := range clangConfigs(thorough) {
-			for _, f := range files {
+			for _, f := range shared {
 				isCxx := strings.HasSuffix(f, ".cpp")
 				isSVE := strings.Contains(filepath.Base(f), "sve")
 				if cfg.cxx != isCxx {
@@ -60,10 +108,7 @@ func init() {
 				if (cfg.only == "sve") != isSVE {
 					continue
 				}
-				cfg, f := cfg, f
-				out = append(out, Source{ID: fmt.Sprintf("clang/%s/%s", filepath.Base(f), cfg.name), Text: func() (string, error) {
-					return compileC(f, cfg)
-				}})
+				add(f, cfg)
 			}
 		}
 		return out
@@ -80,9 +125,14 @@ func compileC(file string, cfg clangConfig) (string, error) {
 		return "", err
 	}
 	args := append([]string{"-S", "-emit-llvm", "-ffreestanding", "-fno-discard-value-names", "-w", "-o", "-"}, cfg.args...)
-	if cfg.cxx {
+	switch {
+	case cfg.cxx:
 		args = append(args, "-x", "c++", "-")
-	} else {
+	case strings.HasSuffix(file, ".m"):
+		args = append(args, "-x", "objective-c", "-")
+	case strings.HasSuffix(file, ".cl"):
+		args = append(args, "-x", "cl", "-")
+	default:
 		args = append(args, "-x", "c", "-")
 	}
 	so, se, e := llvmref.Run(src, tool, args...)
